@@ -473,8 +473,12 @@ def make_plan(seed, tier='quick'):
     if cfg['burst'] and not sequential and rng.random() < 0.5:
         # ... with every thread starting on the same grammar
         v0 = threads[0][0]['v']
+        same_call = rng.random() < 0.5
         for th in threads:
-            th[0]['v'] = v0
+            if same_call:
+                th[0] = dict(threads[0][0])      # ... and even with the very same call
+            else:
+                th[0]['v'] = v0
     return {'sim': 'threadsim', 'seed': seed, 'config': cfg, 'threads': threads, 'switches': [], 'more': []}
 
 
